@@ -24,6 +24,9 @@ RULE = ('(matrix) Hypothesis draws an operation (copy [optionally onto another p
         'through the check\'s own name->CAS table. '
         'Sources also include a phase sub-stream (view) of a MultiStream; target phase sets are drawn equal to, as '
         'case twins of, or independently of the source\'s. '
+        '(own_view) a MultiStream copies (copy_like, copy_flow, copy_thermal_condition) from one of its own phase '
+        'sub-streams, which shares a row of the destination: afterwards the stream holds exactly what the sub-stream '
+        'held, other rows empty, T/P/phases unchanged, the sub-stream still a live view. '
         '(proxy) proxy / flow_proxy of every kind (constructor-built and converted MultiStreams), identity of the '
         'shared containers, write-through in both directions, phase sub-streams handed out by the original before '
         'the proxy exists / by both afterwards / by the proxy only, then unlink of either member, after which the '
@@ -67,6 +70,7 @@ REQUIRED_CELLS = {'quick': ['m:copy_like:tgt=S,src=S', 'm:copy_like:tgt=S,src=M1
                             'm:copy_like:tgt=M1,src=S', 'm:copy_like:tgt=M,src=S', 'm:copy_like:tgt=M,src=M',
                             'm:copy_like:tgt=M,src=M1', 'm:copy_like:tgt=M1,src=M', 'm:copy_like:tgt=M1,src=M1',
                             'm:ph=same', 'm:ph=sub', 'm:ph=twin', 'm:ph=absent', 'm:xpkg=1', 'm:xpkg=0',
+                            'o:copy_like:tgt=M', 'o:copy_like:tgt=M1', 'o:copy_flow:tgt=M',
                             'm:op=copy', 'm:op=copy_thermal_condition', 'm:op=copy_phase', 'm:op=copy_flow',
                             'l:op=proxy', 'l:op=flow_proxy', 'l:op=unlink', 'l:op=copy',
                             'l:link=000', 'l:link=001', 'l:link=010', 'l:link=011', 'l:link=100', 'l:link=101',
@@ -539,6 +543,43 @@ def _matrix_copy(ch, ctx, sk, xpkg, spkg, how):
               f'{site}|{region}|not-independent:copy->src', 'writing the copy changed the original')
     if nonzero_rows(s0['rows']):
         ctx.nontriv(['copy', skey(src), xpkg, via, how])
+
+
+# ---------------------------------------------------------------------------
+# (1a') copying onto a MultiStream from one of its OWN phase sub-streams (the source shares a row of the target)
+# ---------------------------------------------------------------------------
+def prop_own_view(ch, ctx):
+    kind3 = ch.choice('kind', ['M', 'M', 'M1'])
+    pkg = ch.choice('pkg', list(chem.PACKAGES))
+    op = ch.choice('op', ['copy_like', 'copy_like', 'copy_flow', 'copy_thermal_condition'])
+    spec = draw_stream(ch, 'ms', kind3, pkg)
+    via = ch.choice('ms.via', ['ctor', 'conv']) if kind3 == 'M' else 'ctor'
+    q = ch.choice('view', list(spec['phases']))
+    ms = build(spec, via)
+    view = ms[q]
+    region = f'tgt={kind3},via={via},src=own-view'
+    site = 'ownview.' + op
+    ctx.cell(f'o:{op}:tgt={kind3}')
+    before = snap(ms); vbefore = snap(view)
+    if nonzero_rows(vbefore['rows']): ctx.nontriv(['ownview', op, skey(spec), via, q])
+    ctx.call(site, getattr(ms, op), view, region=region)
+    after = snap(ms)
+    if op == 'copy_thermal_condition':
+        ctx.check(after == before, f'{site}|{region}|state-changed', 'copying the shared thermal condition changed the stream')
+    else:
+        # the stream now holds exactly what its sub-stream held, in that phase; all other rows are empty
+        want = nonzero_rows({q: vbefore['rows'][q]})
+        ok, msg = rows_equal(after['rows'], want)
+        ctx.check(ok, f'{site}|{region}|flows-mismatch',
+                  lambda: f'{msg}; stream {nonzero_rows(after["rows"])} but its sub-stream {q} held {want}')
+        ctx.check((after['cls'], after['phases'], after['T'], after['P']) == (before['cls'], before['phases'], before['T'], before['P']),
+                  f'{site}|{region}|TP-phase-mismatch', f'{after["phases"]} {after["T"]} {after["P"]}')
+    # the sub-stream is still a live view of that row
+    v = ms[q]
+    ctx.check(_Readers.by_phase(v) == {q: after['rows'][q]} and v.T == ms.T and v.P == ms.P,
+              f'{site}|{region}|view-stale', 'the sub-stream no longer shows the row of its stream')
+    ctx.check(_Readers.by_phase(view) == {q: after['rows'][q]}, f'{site}|{region}|view-stale',
+              'the sub-stream handed out before the call no longer shows the row of its stream')
 
 
 # ---------------------------------------------------------------------------
@@ -1443,6 +1484,7 @@ def prop_pickle_thermo(ch, ctx):
 
 PROPS = {
     'matrix': (prop_matrix, 10000, 150000),
+    'own_view': (prop_own_view, 600, 10000),
     'proxy': (prop_proxy, 2000, 30000),
     'substream': (prop_substream, 1500, 20000),
     'link_views': (prop_link_views, 1500, 20000),
